@@ -6,6 +6,6 @@ CLAIM = ("After lha_reader_free nothing allocated on the reader's behalf is left
          "their block, replaced strings are released by the extended-header decoders.")
 ASSUMPTIONS = ["decoder objects are counted stubs (lha_decoder_new/free pairing: C14 decoder.new)", "header objects come from a stubbed parser; the parser's own ownership is checked by tail.*/ext.*.leak"]
 from C16 import MAIN
-HARNESSES = [MAIN, STREAM, rsm(2, 4, timeout=600), rsm(2, 5, timeout=900),
+HARNESSES = [MAIN, STREAM, extend(3), rsm(2, 4, timeout=600), rsm(2, 5, timeout=900),
              dict(name="decoder.new", src="C14/split.c", entry="harness_new", unwind=4, leak=True, units=["lib/lha_decoder.c:lha_decoder_new,lha_decoder_free"], timeout=120, bounds="method init succeeding or failing; 4-byte private area, 3-byte output buffer"), rsm(2, 3, fail=True, timeout=600), rsm(3, 5, timeout=2400, tier="thorough"), rsm(3, 4, fail=True, timeout=2400, tier="thorough")] + \
     [tail(3)] + [ext(n, d, leak=True) for n, d in [(0x01, 4), (0x02, 4), (0x52, 3), (0x53, 3)]]
